@@ -18,7 +18,7 @@ THEOREMS = [L + t for t in (
     "closed_after_unregister", "closed_after_goroutines_exit", "channels_closed_once", "channels_closed_by_owner",
     "stop_terminates", "workers_only_when_registered", "lock_order_acyclic_modulo_feedback",
     "f37_as_is_stuck", "no_stuck_statement_fails_as_is", "f38_failed_connect_as_is_stuck", "f38_stop_as_is_leaves_connection",
-    "serve_joins_all_goroutines", "f37_stop_as_is_stuck", "f47_once_deadlock_as_is_stuck", "f48_auth_send_as_is_stuck", "f49_as_is_poll_without_queue",
+    "serve_joins_all_goroutines", "conn_tracked_until_closed", "f37_stop_as_is_stuck", "f47_once_deadlock_as_is_stuck", "f48_auth_send_as_is_stuck", "f49_as_is_poll_without_queue",
     "lock_feedback_empty", "lock_order_acyclic")]
 COMPS = ["broker"]          # Go side; the Lean side is oracle_lifecycle (LifecycleStream.model)
 NEEDS_FACTS = ["Locks", "Serve"]
